@@ -97,7 +97,23 @@ func RunSeed(base uint64, prop string, i int) uint64 {
 const stateCap = 60000
 
 // TestWorker executes runs [VERIF_FROM, VERIF_TO) of property VERIF_PROP.
+// singleP makes the process run on one P unless GOMAXPROCS is given explicitly (the
+// determinism self-test does that). The kernel decides which goroutine is released at
+// every seam, but one kernel event can wake several goroutines (a batched reply fans out
+// to all waiting connections), which then run until each blocks again. On the unchanged
+// tree they touch disjoint state, so it does not matter how they overlap; a change that
+// makes them share something unsynchronised turns that overlap into a real data race,
+// and a violation found through it would not replay. On one P such goroutines run one
+// after the other in the run queue's order. Workers are separate processes, one per
+// core, so nothing is lost in throughput.
+func singleP() {
+	if os.Getenv("GOMAXPROCS") == "" {
+		runtime.GOMAXPROCS(1)
+	}
+}
+
 func TestWorker(t *testing.T) {
+	singleP()
 	prop := os.Getenv("VERIF_PROP")
 	if prop == "" {
 		t.Skip("no VERIF_PROP")
@@ -285,6 +301,7 @@ func TestWorker(t *testing.T) {
 // TestReplay re-executes a replay file strictly: every decision must present the
 // recorded number of alternatives and the same violation must be reported at the same step.
 func TestReplay(t *testing.T) {
+	singleP()
 	path := os.Getenv("VERIF_REPLAY")
 	if path == "" {
 		t.Skip("no VERIF_REPLAY")
